@@ -23,7 +23,7 @@ def url_builder(F):
     out = []
     for f in F.user_fns():
         for bb in mirq.real_calls(f):
-            if any(x[0] == 'str' and 'info_hash' in x[1] for x in walk(f.expr_call(bb))):
+            if any(x[0] == 'str' and 'info_hash' in x[1] for x in walk(f.expr_call(bb), inl=False)):
                 out.append(f)
                 break
     return C.one(out, 'function mentioning the literal "info_hash"')
